@@ -17,7 +17,7 @@ Keys == 1..NKeys
 STAR == 0
 AllB == [Keys -> 0..NVals]
 Unbound == [k \in Keys |-> 0]
-Bindings == AllB \ {Unbound}          \* insertions bind at least one key
+Bindings == AllB                      \* insertions under full, partial and (degenerate) empty bindings
 Lookups == AllB
 
 \* ---------------- Layer A: reference ----------------
